@@ -122,6 +122,7 @@ std::map<IndexCombination4,std::vector<ComplexType> > TwoParticleGFContainer::co
 
             if (comm.rank() != sender) {
                 chi.setStatus(TwoParticleGF::Computed);
+                if (!clearTerms) chi.parts[p]->Status = TwoParticleGFPart::Computed; // the terms have just been received
                  };
             };
     }
